@@ -16,6 +16,7 @@
 #include "cppPreprocessor.h"
 
 #include <ctype.h>
+#include <string.h>
 
 using std::string;
 
@@ -28,7 +29,8 @@ ExpansionNode(int parm_number, bool stringify, bool paste) :
   _expand(!stringify && !paste),
   _stringify(stringify),
   _paste(paste),
-  _optional(false)
+  _optional(false),
+  _space(false)
 {
 }
 
@@ -42,6 +44,7 @@ ExpansionNode(const string &str, bool paste) :
   _stringify(false),
   _paste(paste),
   _optional(false),
+  _space(false),
   _str(str)
 {
 }
@@ -56,6 +59,7 @@ ExpansionNode(Expansion nested, bool stringify, bool paste, bool optional) :
   _stringify(stringify),
   _paste(paste),
   _optional(optional),
+  _space(false),
   _nested(std::move(nested))
 {
 }
@@ -70,6 +74,7 @@ operator ==(const ExpansionNode &other) const {
       && _stringify == other._stringify
       && _paste == other._paste
       && _optional == other._optional
+      && _space == other._space
       && _str == other._str
       && _nested == other._nested;
 }
@@ -229,6 +234,38 @@ stringify(const string &source) {
 
   result += '"';
   return result;
+}
+
+/**
+ * Returns true if writing a character b directly after a character a could
+ * make the two tokens they belong to read as something else (one identifier
+ * or number, a longer operator, a comment, a literal prefix or suffix), so
+ * that white space is needed between them.
+ */
+bool CPPManifest::
+would_paste(char a, char b) {
+  bool a_word = (isalnum((unsigned char)a) || a == '_');
+  bool b_word = (isalnum((unsigned char)b) || b == '_');
+  if (a_word && b_word) {
+    return true;
+  }
+  if ((a_word && (b == '"' || b == '\'')) ||
+      ((a == '"' || a == '\'') && b_word)) {
+    return true;
+  }
+  if ((isdigit((unsigned char)a) && b == '.') ||
+      (a == '.' && isdigit((unsigned char)b))) {
+    // 1 . or . 5 would become a number.
+    return true;
+  }
+  if ((a == 'e' || a == 'E' || a == 'p' || a == 'P') && (b == '+' || b == '-')) {
+    // 1e + would become a number.
+    return true;
+  }
+  static const char operator_chars[] = "+-*/%<>=!&|^:.#";
+  return a != '\0' && b != '\0' &&
+         strchr(operator_chars, a) != nullptr &&
+         strchr(operator_chars, b) != nullptr;
 }
 
 /**
@@ -538,6 +575,17 @@ save_expansion(Expansion &expansion, const string &exp, const vector_string &par
   size_t last = 0;
   bool stringify = false;
   bool paste = false;
+
+  // Each node remembers whether white space separated it from the previous
+  // one in the replacement list, so that the expansion is spelled the way the
+  // replacement list was (this shows when it ends up as the operand of #).
+  bool space = false;
+  auto add_node = [&](ExpansionNode node) {
+    node._space = space;
+    space = false;
+    expansion.push_back(std::move(node));
+  };
+
   while (p < exp.size()) {
     if (isalpha(exp[p]) || exp[p] == '_') {
       // Here's the start of an identifier.  Find the end of it.
@@ -581,7 +629,7 @@ save_expansion(Expansion &expansion, const string &exp, const vector_string &par
           }
 
           if (last != q) {
-            expansion.push_back(ExpansionNode(exp.substr(last, q - last), paste));
+            add_node(ExpansionNode(exp.substr(last, q - last), paste));
             paste = false;
           }
 
@@ -589,7 +637,7 @@ save_expansion(Expansion &expansion, const string &exp, const vector_string &par
           // stringified as a whole.
           Expansion nested;
           save_expansion(nested, exp.substr(start, p - 1 - start), parameter_names);
-          expansion.push_back(ExpansionNode(std::move(nested), stringify, paste, true));
+          add_node(ExpansionNode(std::move(nested), stringify, paste, true));
           stringify = false;
           paste = false;
           last = p;
@@ -608,10 +656,10 @@ save_expansion(Expansion &expansion, const string &exp, const vector_string &par
       if (pnum != -1) {
         // Yep!
         if (last != q) {
-          expansion.push_back(ExpansionNode(exp.substr(last, q - last), paste));
+          add_node(ExpansionNode(exp.substr(last, q - last), paste));
           paste = false;
         }
-        expansion.push_back(ExpansionNode(pnum, stringify, paste));
+        add_node(ExpansionNode(pnum, stringify, paste));
         stringify = false;
         paste = false;
         last = p;
@@ -626,7 +674,7 @@ save_expansion(Expansion &expansion, const string &exp, const vector_string &par
     } else if (exp[p] == '#') {
       // This may be a stringification operator.
       if (last != p) {
-        expansion.push_back(ExpansionNode(exp.substr(last, p - last), paste));
+        add_node(ExpansionNode(exp.substr(last, p - last), paste));
         paste = false;
       }
 
@@ -648,8 +696,12 @@ save_expansion(Expansion &expansion, const string &exp, const vector_string &par
 
     } else if (isspace(exp[p])) {
       if (last != p) {
-        expansion.push_back(ExpansionNode(exp.substr(last, p - last), paste));
+        add_node(ExpansionNode(exp.substr(last, p - last), paste));
         paste = false;
+      }
+      if (!stringify && !paste) {
+        // (White space between # or ## and its operand does not count.)
+        space = true;
       }
 
       ++p;
@@ -661,7 +713,7 @@ save_expansion(Expansion &expansion, const string &exp, const vector_string &par
   }
 
   if (last != p) {
-    expansion.push_back(ExpansionNode(exp.substr(last, p - last), paste));
+    add_node(ExpansionNode(exp.substr(last, p - last), paste));
   }
 }
 
@@ -692,10 +744,28 @@ r_expand(const Expansion &expansion, const vector_string &args,
   // onto nothing yields the right operand by itself; it must not end up glued
   // to whatever happens to precede the empty operand.
   bool left_operand_empty = false;
+  bool chain_space = false;
 
   for (const ExpansionNode &node : expansion) {
     const bool paste = node._paste && !left_operand_empty;
     const size_t size_before = result.size();
+
+    // Separate this node from what precedes it if the replacement list did,
+    // or if the two would otherwise read as a different token.
+    if (!node._paste) {
+      chain_space = node._space;
+    }
+    const bool space = node._paste ? chain_space : node._space;
+    auto append = [&](const string &piece) {
+      if (piece.empty()) {
+        return;
+      }
+      if (!result.empty() && !paste &&
+          (space || would_paste(result.back(), piece[0]))) {
+        result += ' ';
+      }
+      result += piece;
+    };
 
     if (node._parm_number >= 0) {
       int i = node._parm_number;
@@ -728,23 +798,9 @@ r_expand(const Expansion &expansion, const vector_string &args,
         _parser.expand_manifests(subst, expand_undefined, ignores);
       }
 
-      if (!subst.empty()) {
-        if (result.empty() || paste || result.back() == '(') {
-          result += subst;
-        } else {
-          result += ' ';
-          result += subst;
-        }
-      }
+      append(subst);
     }
-    if (!node._str.empty()) {
-      if (result.empty() || paste || node._str[0] == ',' || node._str[0] == ')') {
-        result += node._str;
-      } else {
-        result += ' ';
-        result += node._str;
-      }
-    }
+    append(node._str);
     if (node._optional || !node._nested.empty()) {
       string nested_result;
       if (node._optional && has_variadic_args(args)) {
@@ -753,12 +809,7 @@ r_expand(const Expansion &expansion, const vector_string &args,
       if (node._stringify) {
         nested_result = stringify(nested_result);
       }
-      if (result.empty() || paste) {
-        result += nested_result;
-      } else {
-        result += ' ';
-        result += nested_result;
-      }
+      append(nested_result);
     }
 
     const bool came_out_empty = (result.size() == size_before);
